@@ -1,4 +1,4 @@
-(* Proofs about Model/Bisync.v *)
+(* Proofs about Model/Bisync.v (the repaired bidirectional sync) *)
 From Coq Require Import NArith ZArith List Bool Lia.
 From SyModel Require Import Bisync.
 Import ListNotations.
@@ -13,6 +13,8 @@ Proof. intro H. unfold upd. destruct (N.eqb_spec q k); [contradiction | reflexiv
 Lemma cname_inj sd1 sd2 p q : cname sd1 p = cname sd2 q -> sd1 = sd2 /\ p = q.
 Proof. destruct sd1, sd2; unfold cname; intro E; try (split; [reflexivity | lia]); lia. Qed.
 Lemma cname_neq p sd : cname sd p <> p \/ p = 0%N.
+Proof. destruct sd; unfold cname; lia. Qed.
+Lemma cname_ne p sd : cname sd p <> p.
 Proof. destruct sd; unfold cname; lia. Qed.
 Lemma cname_sd p : cname Source p <> cname Dest p.
 Proof. unfold cname; lia. Qed.
@@ -35,6 +37,10 @@ Proof.
     destruct (w_src w p), (w_dst w p); cbn; rewrite ?upd_other by assumption; reflexivity.
 Qed.
 
+(* actions never write the state database *)
+Lemma exec_db now w p a : w_dbs (exec now w p a) = w_dbs w /\ w_dbd (exec now w p a) = w_dbd w.
+Proof. destruct a; cbn [exec]; try (split; reflexivity); destruct (w_src w p), (w_dst w p); split; reflexivity. Qed.
+
 Definition untouched_by (st : strategy) (w0 : world) (U : list N) (q : N) : Prop :=
   forall p a, In p U -> action_of st w0 p = Some a -> ~ touches a p q.
 
@@ -55,8 +61,8 @@ Proof.
   destruct a; cbn [exec]; rewrite ?E1, ?E2.
   - destruct (w_dst w2 p) eqn:Ed; cbn; rewrite ?upd_same, ?E1, ?E2, ?E3, ?E4, ?Ed; reflexivity.
   - destruct (w_src w2 p) eqn:Es; cbn; rewrite ?upd_same, ?E1, ?E2, ?E3, ?E4, ?Es; reflexivity.
-  - cbn. rewrite ?upd_same, ?E2. reflexivity.
-  - cbn. rewrite ?upd_same, ?E1. reflexivity.
+  - cbn. rewrite ?upd_same, ?E2, ?E3, ?E4. reflexivity.
+  - cbn. rewrite ?upd_same, ?E1, ?E3, ?E4. reflexivity.
   - destruct (w_src w2 p) eqn:Es, (w_dst w2 p) eqn:Ed; cbn; rewrite ?E1, ?E2, ?E3, ?E4, ?Es, ?Ed; try reflexivity.
     unfold upd. rewrite ?N.eqb_refl.
     destruct (N.eqb p (cname Source p)), (N.eqb p (cname Dest p)); rewrite ?N.eqb_refl; reflexivity.
@@ -79,119 +85,582 @@ Proof.
       apply exec_frame. apply (Hother p0 a0); [left; reflexivity | assumption | assumption].
 Qed.
 
-(* generalisation: the effect at any q depends on the accumulator at p and at q *)
-Lemma exec_local2 now w1 w2 p a q :
-  at_ w1 p = at_ w2 p -> at_ w1 q = at_ w2 q -> at_ (exec now w1 p a) q = at_ (exec now w2 p a) q.
+(* ---------- recording ---------- *)
+Lemma record_path_frame w p q : q <> p -> at_ (record_path w p) q = at_ w q.
 Proof.
-  unfold at_. intros E F. inversion E as [[E1 E2 E3 E4]]. inversion F as [[F1 F2 F3 F4]].
-  destruct a; cbn [exec]; rewrite ?E1, ?E2.
-  - destruct (w_dst w2 p) eqn:Ed; cbn; unfold upd; destruct (N.eqb q p); rewrite ?F1, ?F2, ?F3, ?F4; reflexivity.
-  - destruct (w_src w2 p) eqn:Es; cbn; unfold upd; destruct (N.eqb q p); rewrite ?F1, ?F2, ?F3, ?F4; reflexivity.
-  - cbn. unfold upd. destruct (N.eqb q p); rewrite ?F1, ?F2, ?F3, ?F4; reflexivity.
-  - cbn. unfold upd. destruct (N.eqb q p); rewrite ?F1, ?F2, ?F3, ?F4; reflexivity.
-  - destruct (w_src w2 p) eqn:Es, (w_dst w2 p) eqn:Ed; cbn; rewrite ?F1, ?F2, ?F3, ?F4; try reflexivity.
-    unfold upd. destruct (N.eqb q p), (N.eqb q (cname Source p)), (N.eqb q (cname Dest p)); rewrite ?F1, ?F2, ?F3, ?F4; reflexivity.
+  intro H. unfold record_path, at_. destruct (w_src w p), (w_dst w p); try reflexivity.
+  - destruct (content_equal f f0); [cbn; rewrite !upd_other by exact H|]; reflexivity.
+  - cbn. rewrite !upd_other by exact H. reflexivity.
 Qed.
 
-Lemma fold_at2 st now w0 : forall U acc p q,
-  NoDup U -> In p U ->
-  (forall p' a', In p' U -> p' <> p -> action_of st w0 p' = Some a' -> ~ touches a' p' p /\ ~ touches a' p' q) ->
-  at_ (fold_left (sync_step st now w0) U acc) q = at_ (sync_step st now w0 acc p) q.
+Lemma record_path_local w1 w2 p : at_ w1 p = at_ w2 p -> at_ (record_path w1 p) p = at_ (record_path w2 p) p.
 Proof.
-  induction U as [|p0 U IH]; intros acc p q Hnd Hin Hother; [destruct Hin|].
-  inversion Hnd as [|? ? Hnotin Hnd']; subst. cbn [fold_left]. destruct Hin as [->|Hin].
-  - apply fold_frame. intros p' a' Hin' Ea'. apply (Hother p' a'); [right; exact Hin' | intro; subst; contradiction | exact Ea'].
-  - assert (Hne : p0 <> p) by (intro; subst; contradiction).
-    rewrite (IH _ p); [| assumption | assumption | intros p' a' Hin' Hne' Ea'; apply Hother; [right; assumption | assumption | assumption]].
-    assert (Hp : at_ (sync_step st now w0 acc p0) p = at_ acc p /\ at_ (sync_step st now w0 acc p0) q = at_ acc q).
-    { unfold sync_step. destruct (action_of st w0 p0) as [a0|] eqn:Ea0; [|split; reflexivity].
-      destruct (Hother p0 a0 (or_introl eq_refl) Hne Ea0) as [H1 H2]. split; apply exec_frame; assumption. }
-    destruct Hp as [Hp Hq].
-    unfold sync_step at 1 3. destruct (action_of st w0 p) as [a|] eqn:Ea.
-    + apply exec_local2; assumption.
-    + exact Hq.
+  unfold at_, record_path. intro E. inversion E as [[E1 E2 E3 E4]]. rewrite E1, E2.
+  destruct (w_src w2 p) eqn:S2, (w_dst w2 p) eqn:D2; cbn; rewrite ?E1, ?E2, ?E3, ?E4, ?S2, ?D2; try reflexivity.
+  - destruct (content_equal f f0); cbn; rewrite ?upd_same, ?E1, ?E2, ?E3, ?E4, ?S2, ?D2; reflexivity.
+  - rewrite !upd_same. reflexivity.
 Qed.
 
-(* ---------- one path, no prior state: the first sync ---------- *)
-Definition no_rows (w : world) (p : N) : Prop := w_dbs w p = None /\ w_dbd w p = None.
-
-(* the hypothesis that excludes the known finding C11-KF1 at p: equal sizes imply equal content *)
-Definition sizes_tell (w : world) (p : N) : Prop :=
-  forall s d, w_src w p = Some s -> w_dst w p = Some d -> f_size s = f_size d -> f_content s = f_content d.
-
-Lemma first_sync_path st now w p :
-  no_rows w p -> sizes_tell w p ->
-  let w' := sync_step st now w w p in
-  same_content (w_src w' p) (w_dst w' p) = true.
+Lemma record_frame : forall U w q, ~ In q U -> at_ (record U w) q = at_ w q.
 Proof.
-  intros [Hs Hd] Hst. unfold sync_step, action_of. rewrite Hs, Hd.
-  destruct (w_src w p) as [s|] eqn:Es, (w_dst w p) as [d|] eqn:Ed; cbn [classify].
-  - unfold content_equal. destruct (N.eqb_spec (f_size s) (f_size d)) as [E|E].
-    + cbn. rewrite Es, Ed. cbn. rewrite (Hst s d Es Ed E), E, !N.eqb_refl. reflexivity.
-    + cbn [resolve]. destruct st; cbn [resolve_conflict by_mtime by_size];
-        repeat match goal with
-               | |- context [if ?c then _ else _] => destruct c eqn:?
-               end; cbn [exec]; rewrite ?Es, ?Ed; cbn; rewrite ?upd_same, ?Es, ?Ed; cbn; rewrite ?N.eqb_refl; try reflexivity.
-      all: try (destruct (cname_neq p Source) as [Hn|Hz], (cname_neq p Dest) as [Hn'|Hz']; subst; unfold upd; cbn;
-                repeat match goal with |- context [N.eqb ?a ?b] => destruct (N.eqb_spec a b); try congruence; try lia end; reflexivity).
-  - cbn. rewrite Es. cbn. rewrite upd_same, Es. cbn. rewrite !N.eqb_refl. reflexivity.
-  - cbn. rewrite Ed. cbn. rewrite upd_same, Ed. cbn. rewrite !N.eqb_refl. reflexivity.
-  - cbn. rewrite Es, Ed. reflexivity.
+  unfold record. induction U as [|p U IH]; intros w q Hn; [reflexivity|]. cbn [fold_left].
+  rewrite IH by (intro X; apply Hn; right; exact X). apply record_path_frame. intro; subst; apply Hn; left; reflexivity.
 Qed.
 
-(* the first sync never drops a version unless the path is a conflict settled by a non-rename strategy *)
-Definition holds (w : world) (c : N) (p : N) : Prop :=
-  (exists f, w_src w p = Some f /\ f_content f = c) \/ (exists f, w_dst w p = Some f /\ f_content f = c).
-
-Lemma first_sync_no_loss st now w p c :
-  p <> 0%N -> no_rows w p -> holds w c p ->
-  let w' := sync_step st now w w p in
-  holds w' c p \/ holds w' c (cname Source p) \/ holds w' c (cname Dest p) \/
-  (exists s d, w_src w p = Some s /\ w_dst w p = Some d /\ f_size s <> f_size d /\ st <> RenameBoth).
+Lemma record_at : forall U w p, NoDup U -> In p U -> at_ (record U w) p = at_ (record_path w p) p.
 Proof.
-  intros Hp0 [Hs Hd] Hh. unfold sync_step, action_of. rewrite Hs, Hd.
-  assert (Hcs : cname Source p <> p) by (destruct (cname_neq p Source); congruence).
-  assert (Hcd : cname Dest p <> p) by (destruct (cname_neq p Dest); congruence).
-  destruct (w_src w p) as [s|] eqn:Es, (w_dst w p) as [d|] eqn:Ed; cbn [classify].
-  - unfold content_equal. destruct (N.eqb_spec (f_size s) (f_size d)) as [E|E].
-    + left. cbn. unfold holds. rewrite Es, Ed. unfold holds in Hh. rewrite Es, Ed in Hh. exact Hh.
-    + destruct st; try (right; right; right; exists s, d; repeat split; try assumption; discriminate).
-      cbn [resolve resolve_conflict exec]. rewrite Es, Ed.
-      unfold holds in *. rewrite Es, Ed in Hh. cbn. destruct Hh as [(f & Ef & Ec)|(f & Ef & Ec)]; inversion Ef; subst.
-      * right. left. left. exists f. rewrite upd_same. split; reflexivity.
-      * right. right. left. right. exists f. rewrite upd_same. split; reflexivity.
-  - left. cbn. rewrite Es. unfold holds in *. cbn. rewrite Es, Ed in Hh. rewrite Es, upd_same.
-    destruct Hh as [(f & Ef & Ec)|(f & Ef & Ec)]; [|discriminate]. left. exists f. split; assumption.
-  - left. cbn. rewrite Ed. unfold holds in *. cbn. rewrite Es, Ed in Hh. rewrite Ed, upd_same.
-    destruct Hh as [(f & Ef & Ec)|(f & Ef & Ec)]; [discriminate|]. right. exists f. split; assumption.
-  - unfold holds in Hh. rewrite Es, Ed in Hh. destruct Hh as [(f & Ef & _)|(f & Ef & _)]; discriminate.
+  induction U as [|q U IH]; intros w p Hnd Hin; [destruct Hin|].
+  inversion Hnd as [|? ? Hnotin Hnd']; subst. unfold record. cbn [fold_left]. fold (record U (record_path w q)). destruct Hin as [->|Hin].
+  - apply record_frame. exact Hnotin.
+  - rewrite (IH _ p Hnd' Hin). apply record_path_local. apply record_path_frame. intro; subst; contradiction.
 Qed.
 
-(* ---------- the sync after a first sync performs no action (idle sync is a no-op) ---------- *)
-Definition times_below (w : world) (p : N) (now : Z) : Prop :=
-  (forall f, w_src w p = Some f -> (f_mtime f < now)%Z) /\ (forall f, w_dst w p = Some f -> (f_mtime f < now)%Z).
+(* ---------- one path through one sync ---------- *)
+(* conflict copies of the paths under consideration land outside the universe (no clash with an existing path) *)
+Definition conflict_names_outside (U : list N) : Prop :=
+  forall p sd, In p U -> ~ In (cname sd p) U.
 
-Lemma idle_after_first_sync_path st st2 now w p :
-  no_rows w p ->
-  action_of st w p <> Some RenameConflict ->
-  let w' := sync_step st now w w p in
-  action_of st2 w' p = None.
+Lemma others_dont_touch U st w p q :
+  conflict_names_outside U -> In p U -> In q U -> q <> p ->
+  forall a, action_of st w q = Some a -> ~ touches a q p.
 Proof.
-  intros [Hs Hd] Hnr. unfold sync_step. unfold action_of in *. rewrite Hs, Hd in *.
-  destruct (w_src w p) as [s|] eqn:Es, (w_dst w p) as [d|] eqn:Ed; cbn [classify] in *.
-  - unfold content_equal in *. destruct (N.eqb_spec (f_size s) (f_size d)) as [E|E].
-    + cbn. rewrite Es, Ed, Hs, Hd. cbn. unfold content_equal. rewrite E, N.eqb_refl. reflexivity.
-    + cbn [resolve] in *.
-      destruct (resolve_conflict st (Some s) (Some d)) eqn:Er; try congruence; cbn [exec]; rewrite ?Es, ?Ed; cbn;
-        rewrite ?upd_same, ?Es, ?Ed, ?Hs, ?Hd; cbn; unfold is_modified, content_equal, rec_of; cbn;
-        rewrite ?N.eqb_refl; cbn; try reflexivity.
-      * rewrite andb_false_r. reflexivity.
-      * rewrite andb_false_r. reflexivity.
-      * destruct st; cbn in Er; repeat match type of Er with context [if ?c then _ else _] => destruct c end; discriminate.
-      * destruct st; cbn in Er; repeat match type of Er with context [if ?c then _ else _] => destruct c end; discriminate.
-  - cbn. rewrite Es. cbn. rewrite !upd_same, ?Es, ?Hs, ?Hd. cbn. unfold is_modified, content_equal, rec_of. cbn.
-    rewrite ?N.eqb_refl. cbn. rewrite ?andb_false_r. reflexivity.
-  - cbn. rewrite Ed. cbn. rewrite !upd_same, ?Ed, ?Hs, ?Hd. cbn. unfold is_modified, content_equal, rec_of. cbn.
-    rewrite ?N.eqb_refl. cbn. rewrite ?andb_false_r. reflexivity.
-  - cbn. rewrite Es, Ed, Hs, Hd. reflexivity.
+  intros Hc Hp Hq Hne a _ [E|[_ [E|E]]]; [congruence | |]; apply (Hc q) with (sd := Source) in Hq as H1; apply (Hc q) with (sd := Dest) in Hq as H2; subst; contradiction.
+Qed.
+
+Definition path_sync (st : strategy) (now : Z) (w : world) (p : N) : world := record_path (sync_step st now w w p) p.
+
+Theorem bisync_at U st maxdel now w w' p :
+  NoDup U -> conflict_names_outside U -> In p U -> bisync U st maxdel now w = Some w' ->
+  at_ w' p = at_ (path_sync st now w p) p.
+Proof.
+  intros Hnd Hc Hp Hb. unfold bisync in Hb. destruct (limit_exceeded maxdel (changes_of w U)); [discriminate|].
+  inversion Hb; subst. rewrite (record_at U _ p Hnd Hp). unfold path_sync. apply record_path_local.
+  apply fold_at; [exact Hnd | exact Hp|]. intros q a Hq Hne Ea. apply (others_dont_touch U st w p q Hc Hp Hq Hne a Ea).
+Qed.
+
+(* ---------- the state database describes the last common version ---------- *)
+(* rows come in pairs; a side that is NOT modified with respect to its row still holds the recorded common version [b] *)
+Definition rows_ok (w : world) (p : N) : Prop :=
+  match w_dbs w p, w_dbd w p with
+  | None, None => True
+  | Some rs, Some rd =>
+      exists bc bs : N,
+        (forall s, w_src w p = Some s -> is_modified s rs = false -> f_content s = bc /\ f_size s = bs) /\
+        (forall d, w_dst w p = Some d -> is_modified d rd = false -> f_content d = bc /\ f_size d = bs)
+  | _, _ => True      (* a row on one side only (a database damaged, or written by an interrupted run): the classifier's partial-prior arms *)
+  end.
+
+Definition in_sync (w : world) (p : N) : Prop := same_content (w_src w p) (w_dst w p) = true.
+
+Lemma content_equal_spec s d : content_equal s d = true <-> f_size s = f_size d /\ f_content s = f_content d.
+Proof.
+  unfold content_equal. split.
+  - intro H. apply andb_prop in H. destruct H as [A B]. apply N.eqb_eq in A, B. auto.
+  - intros [A B]. rewrite A, B, !N.eqb_refl. reflexivity.
+Qed.
+
+Lemma same_content_some s d : same_content (Some s) (Some d) = true <-> f_content s = f_content d /\ f_size s = f_size d.
+Proof.
+  cbn. split.
+  - intro H. apply andb_prop in H. destruct H as [A B]. apply N.eqb_eq in A, B. auto.
+  - intros [A B]. rewrite A, B, !N.eqb_refl. reflexivity.
+Qed.
+
+(* ---- every action the resolver emits is applicable, and applying it (then recording) leaves the sides agreeing at p ---- *)
+Definition action_ok (w : world) (p : N) (a : act) : Prop :=
+  match a with
+  | CopyToDest => w_src w p <> None
+  | CopyToSource => w_dst w p <> None
+  | DeleteFromSource => w_dst w p = None
+  | DeleteFromDest => w_src w p = None
+  | RenameConflict => w_src w p <> None /\ w_dst w p <> None
+  end.
+
+Lemma resolve_conflict_ok st w p :
+  (w_src w p <> None \/ w_dst w p <> None) -> action_ok w p (resolve_conflict st (w_src w p) (w_dst w p)).
+Proof.
+  intro Hne. destruct (w_src w p) as [s|] eqn:Es, (w_dst w p) as [d|] eqn:Ed; destruct st; cbn;
+    repeat match goal with |- context [if ?c then _ else _] => destruct c end; cbn; rewrite ?Es, ?Ed;
+    try discriminate; try reflexivity; try (split; discriminate); destruct Hne; congruence.
+Qed.
+
+Lemma action_of_ok st w p a : action_of st w p = Some a -> action_ok w p a.
+Proof.
+  unfold action_of. destruct (classify (w_src w p) (w_dst w p) (w_dbs w p) (w_dbd w p)) as [c|] eqn:Ec; [|discriminate].
+  intro H.
+  assert (Hne : c = ModifiedBoth \/ c = CreateCreateConflict \/ c = ModifyDeleteConflict -> w_src w p <> None \/ w_dst w p <> None).
+  { intros _. destruct (w_src w p), (w_dst w p); try (left; discriminate); try (right; discriminate).
+    exfalso. cbn in Ec. destruct (w_dbs w p), (w_dbd w p); discriminate. }
+  destruct c; cbn [resolve] in H;
+    try (inversion H; subst; apply resolve_conflict_ok; apply Hne; auto; fail).
+  - destruct (w_src w p) eqn:Es; inversion H; subst. cbn. rewrite Es. discriminate.
+  - destruct (w_dst w p) eqn:Ed; inversion H; subst. cbn. rewrite Ed. discriminate.
+  - destruct (w_src w p) eqn:Es; inversion H; subst. cbn. rewrite Es. discriminate.
+  - destruct (w_dst w p) eqn:Ed; inversion H; subst. cbn. rewrite Ed. discriminate.
+  - (* DeletedFromSource: the source side is absent *)
+    inversion H; subst. cbn. destruct (w_src w p) eqn:Es; [|reflexivity]. exfalso.
+    destruct (w_dst w p), (w_dbs w p), (w_dbd w p); cbn in Ec;
+      repeat match type of Ec with context [if ?c then _ else _] => destruct c end; discriminate.
+  - inversion H; subst. cbn. destruct (w_dst w p) eqn:Ed; [|reflexivity]. exfalso.
+    destruct (w_src w p), (w_dbs w p), (w_dbd w p); cbn in Ec;
+      repeat match type of Ec with context [if ?c then _ else _] => destruct c end; discriminate.
+Qed.
+
+Lemma exec_then_record_in_sync now w p a : action_ok w p a -> in_sync (record_path (exec now w p a) p) p.
+Proof.
+  unfold in_sync, action_ok. destruct a; cbn [exec].
+  - destruct (w_dst w p) as [d|] eqn:Ed; [intros _|congruence].
+    unfold record_path. cbn. rewrite upd_same. destruct (w_dst w p) eqn:E2; [|discriminate]. inversion Ed; subst.
+    unfold content_equal. cbn. rewrite !N.eqb_refl. cbn. rewrite upd_same, E2. cbn. rewrite !N.eqb_refl. reflexivity.
+  - destruct (w_src w p) as [s|] eqn:Es; [intros _|congruence].
+    unfold record_path. cbn. rewrite upd_same. destruct (w_src w p) eqn:E2; [|discriminate]. inversion Es; subst.
+    unfold content_equal. cbn. rewrite !N.eqb_refl. cbn. rewrite upd_same, E2. cbn. rewrite !N.eqb_refl. reflexivity.
+  - intro Hd. unfold record_path. cbn. rewrite upd_same, Hd. cbn. rewrite upd_same, Hd. reflexivity.
+  - intro Hs. unfold record_path. cbn. rewrite upd_same, Hs. cbn. rewrite upd_same, Hs. reflexivity.
+  - intros [Hs Hd]. destruct (w_src w p) as [s|] eqn:Es; [|congruence]. destruct (w_dst w p) as [d|] eqn:Ed; [|congruence].
+    pose proof (cname_ne p Source) as N1. pose proof (cname_ne p Dest) as N2.
+    unfold record_path. cbn. rewrite !(upd_other _ (cname _ p)) by congruence. rewrite !upd_same. cbn.
+    rewrite !(upd_other _ (cname _ p)) by congruence. rewrite !upd_same. reflexivity.
+Qed.
+
+(* what the classifier and resolver decide at p, given truthful rows: afterwards the sides agree at p *)
+Theorem path_sync_converges st now w p : rows_ok w p -> in_sync (path_sync st now w p) p.
+Proof.
+  intro Hr. unfold path_sync, sync_step. destruct (action_of st w p) as [a|] eqn:Ea.
+  - apply exec_then_record_in_sync. apply (action_of_ok st w p a Ea).
+  - (* no action: the classifier saw nothing to do *)
+    unfold action_of in Ea. destruct (classify (w_src w p) (w_dst w p) (w_dbs w p) (w_dbd w p)) as [c|] eqn:Ec.
+    + exfalso. destruct c; cbn [resolve] in Ea; try discriminate;
+        destruct (w_src w p), (w_dst w p), (w_dbs w p), (w_dbd w p); cbn in Ec;
+        repeat match type of Ec with context [if ?c then _ else _] => destruct c end; discriminate.
+    + unfold in_sync, record_path, rows_ok in *.
+      destruct (w_src w p) as [s|] eqn:Hsrc, (w_dst w p) as [d|] eqn:Hdst; cbn; rewrite ?Hsrc, ?Hdst; try reflexivity.
+      * destruct (content_equal s d) eqn:E; cbn; rewrite ?Hsrc, ?Hdst.
+        -- apply content_equal_spec in E. apply same_content_some. tauto.
+        -- exfalso. destruct (w_dbs w p) as [rs|], (w_dbd w p) as [rd|]; cbn in Ec.
+           ++ destruct Hr as (bc & bs & Hs & Hd).
+              destruct (is_modified s rs) eqn:Ms, (is_modified d rd) eqn:Md; try discriminate.
+              ** rewrite E in Ec. discriminate.
+              ** destruct (Hs s eq_refl Ms) as [A1 A2]. destruct (Hd d eq_refl Md) as [B1 B2].
+                 assert (content_equal s d = true) by (apply content_equal_spec; split; congruence). congruence.
+           ++ rewrite E in Ec. destruct (is_modified s rs); discriminate.
+           ++ rewrite E in Ec. destruct (is_modified d rd); discriminate.
+           ++ rewrite E in Ec. discriminate.
+      * exfalso. destruct (w_dbs w p), (w_dbd w p); cbn in Ec; try contradiction;
+          repeat match type of Ec with context [if ?c then _ else _] => destruct c end; discriminate.
+      * exfalso. destruct (w_dbs w p), (w_dbd w p); cbn in Ec; try contradiction;
+          repeat match type of Ec with context [if ?c then _ else _] => destruct c end; discriminate.
+Qed.
+
+(* ---------- after a sync the database is truthful at p, and a further sync finds nothing to do there ---------- *)
+Lemma record_path_files w p q : w_src (record_path w p) q = w_src w q /\ w_dst (record_path w p) q = w_dst w q.
+Proof. unfold record_path. destruct (w_src w p), (w_dst w p); try (split; reflexivity). destruct (content_equal f f0); split; reflexivity. Qed.
+
+Lemma is_modified_rec_of f : is_modified f (rec_of f) = false.
+Proof. unfold is_modified, rec_of. cbn. rewrite N.eqb_refl. cbn. apply Z.ltb_irrefl. Qed.
+
+(* the rows after recording: none when the path is gone, the two sides' own metadata when they agree *)
+Definition rows_fresh (w : world) (p : N) : Prop :=
+  match w_src w p, w_dst w p with
+  | Some s, Some d => w_dbs w p = Some (rec_of s) /\ w_dbd w p = Some (rec_of d)
+  | None, None => w_dbs w p = None /\ w_dbd w p = None
+  | _, _ => False
+  end.
+
+Lemma record_path_fresh w p : in_sync w p -> rows_fresh (record_path w p) p.
+Proof.
+  unfold in_sync, rows_fresh, record_path. destruct (w_src w p) as [s|] eqn:Es, (w_dst w p) as [d|] eqn:Ed; cbn; try discriminate.
+  - intro H. apply same_content_some in H. destruct H as [A B].
+    assert (Ec : content_equal s d = true) by (apply content_equal_spec; split; congruence). rewrite Ec. cbn. rewrite Es, Ed, !upd_same. split; reflexivity.
+  - intros _. rewrite Es, Ed, !upd_same. split; reflexivity.
+Qed.
+
+Lemma in_sync_record w p : in_sync (record_path w p) p -> in_sync w p.
+Proof. unfold in_sync. destruct (record_path_files w p p) as [A B]. rewrite A, B. exact (fun H => H). Qed.
+
+Theorem path_sync_fresh st now w p : rows_ok w p -> rows_fresh (path_sync st now w p) p /\ in_sync (path_sync st now w p) p.
+Proof.
+  intro Hr. pose proof (path_sync_converges st now w p Hr) as Hs. split; [|exact Hs].
+  unfold path_sync in *. apply record_path_fresh. apply in_sync_record. exact Hs.
+Qed.
+
+Lemma fresh_rows_ok w p : rows_fresh w p -> in_sync w p -> rows_ok w p.
+Proof.
+  unfold rows_fresh, rows_ok, in_sync. destruct (w_src w p) as [s|] eqn:Es, (w_dst w p) as [d|] eqn:Ed; try contradiction.
+  - intros [A B] H. rewrite A, B. apply same_content_some in H. destruct H as [C D].
+    exists (f_content s), (f_size s). split; intros x Hx _; inversion Hx; subst; split; congruence.
+  - intros [A B] _. rewrite A, B. exact I.
+Qed.
+
+(* a path whose rows are fresh needs no action, whatever the strategy: an idle re-run is a no-op *)
+Lemma fresh_no_action st w p : rows_fresh w p -> action_of st w p = None.
+Proof.
+  unfold rows_fresh, action_of. destruct (w_src w p) as [s|], (w_dst w p) as [d|]; try contradiction; intros [A B]; rewrite A, B; cbn.
+  - rewrite !is_modified_rec_of. reflexivity.
+  - reflexivity.
+Qed.
+
+(* ---------- a change made on exactly one side is propagated, whatever the strategy ---------- *)
+(* the destination still holds the recorded version; the source was edited, touched, or deleted *)
+Definition changed_on_source_only (w : world) (p : N) : Prop :=
+  exists rs rd d, w_dbs w p = Some rs /\ w_dbd w p = Some rd /\ w_dst w p = Some d /\ is_modified d rd = false /\
+                  match w_src w p with Some s => is_modified s rs = true | None => True end.
+
+Definition changed_on_dest_only (w : world) (p : N) : Prop :=
+  exists rs rd s, w_dbs w p = Some rs /\ w_dbd w p = Some rd /\ w_src w p = Some s /\ is_modified s rs = false /\
+                  match w_dst w p with Some d => is_modified d rd = true | None => True end.
+
+Theorem source_change_propagates st now w p : changed_on_source_only w p ->
+  w_src (path_sync st now w p) p = w_src w p /\
+  same_content (w_dst (path_sync st now w p) p) (w_src w p) = true.
+Proof.
+  intros (rs & rd & d & Es & Ed & Hd & Md & Hs). unfold path_sync, sync_step, action_of. rewrite Es, Ed, Hd.
+  destruct (w_src w p) as [s|] eqn:Hsrc; cbn [classify].
+  - rewrite Hs, Md. cbn [resolve exec]. rewrite Hsrc. destruct (record_path_files (mk_world (w_src w) (upd (w_dst w) p (Some (mk_fent (f_size s) now (f_content s)))) (w_dbs w) (w_dbd w)) p p) as [A B].
+    rewrite A, B. cbn. rewrite upd_same, Hsrc. cbn. rewrite !N.eqb_refl. split; reflexivity.
+  - rewrite Md. cbn [resolve exec]. destruct (record_path_files (mk_world (w_src w) (upd (w_dst w) p None) (w_dbs w) (w_dbd w)) p p) as [A B].
+    rewrite A, B. cbn. rewrite upd_same, Hsrc. split; reflexivity.
+Qed.
+
+Theorem dest_change_propagates st now w p : changed_on_dest_only w p ->
+  w_dst (path_sync st now w p) p = w_dst w p /\
+  same_content (w_src (path_sync st now w p) p) (w_dst w p) = true.
+Proof.
+  intros (rs & rd & s & Es & Ed & Hs & Ms & Hd). unfold path_sync, sync_step, action_of. rewrite Es, Ed, Hs.
+  destruct (w_dst w p) as [d|] eqn:Hdst; cbn [classify].
+  - rewrite Ms, Hd. cbn [resolve exec]. rewrite Hdst. destruct (record_path_files (mk_world (upd (w_src w) p (Some (mk_fent (f_size d) now (f_content d)))) (w_dst w) (w_dbs w) (w_dbd w)) p p) as [A B].
+    rewrite A, B. cbn. rewrite upd_same, Hdst. cbn. rewrite !N.eqb_refl. split; reflexivity.
+  - rewrite Ms. cbn [resolve exec]. destruct (record_path_files (mk_world (upd (w_src w) p None) (w_dst w) (w_dbs w) (w_dbd w)) p p) as [A B].
+    rewrite A, B. cbn. rewrite upd_same, Hdst. split; reflexivity.
+Qed.
+
+(* a file that exists on one side only and was never synchronised is copied to the other side *)
+Theorem new_file_propagates st now w p s : w_dbs w p = None -> w_dbd w p = None -> w_src w p = Some s -> w_dst w p = None ->
+  w_src (path_sync st now w p) p = Some s /\ same_content (w_dst (path_sync st now w p) p) (Some s) = true.
+Proof.
+  intros Es Ed Hs Hd. unfold path_sync, sync_step, action_of. rewrite Es, Ed, Hs, Hd. cbn [classify resolve exec]. rewrite Hs.
+  destruct (record_path_files (mk_world (w_src w) (upd (w_dst w) p (Some (mk_fent (f_size s) now (f_content s)))) (w_dbs w) (w_dbd w)) p p) as [A B].
+  rewrite A, B. cbn. rewrite upd_same, Hs. cbn. rewrite !N.eqb_refl. split; reflexivity.
+Qed.
+
+(* ---------- only paths changed on both sides are conflicts ---------- *)
+Definition is_conflict (c : change) : bool :=
+  match c with ModifiedBoth | CreateCreateConflict | ModifyDeleteConflict => true | _ => false end.
+
+Theorem conflict_needs_both_sides s d rs rd c :
+  classify s d (Some rs) (Some rd) = Some c -> is_conflict c = true ->
+  (match s with Some x => is_modified x rs = true | None => True end) /\
+  (match d with Some y => is_modified y rd = true | None => True end) /\ (s <> None \/ d <> None).
+Proof.
+  destruct s as [s|], d as [d|]; cbn; intros H Hc.
+  - destruct (is_modified s rs) eqn:Ms, (is_modified d rd) eqn:Md.
+    + split; [reflexivity|]. split; [reflexivity | left; discriminate].
+    + inversion H; subst. discriminate Hc.
+    + inversion H; subst. discriminate Hc.
+    + discriminate H.
+  - destruct (is_modified s rs) eqn:Ms; inversion H; subst; [|discriminate Hc]. split; [reflexivity|]. split; [exact I | left; discriminate].
+  - destruct (is_modified d rd) eqn:Md; inversion H; subst; [|discriminate Hc]. split; [exact I|]. split; [reflexivity | right; discriminate].
+  - discriminate H.
+Qed.
+
+(* ---------- no version is lost silently ---------- *)
+(* the source's version at p survives at p or under its conflict name, unless it is replaced by the destination's:
+   then either it was the previously synchronised version (unmodified with respect to its row) or the path was a conflict
+   and the strategy chose the destination's version *)
+Theorem source_version_accounted st now w p s :
+  rows_ok w p -> w_src w p = Some s ->
+  let w' := path_sync st now w p in
+  w_src w' p = Some s \/ w_src w' (cname Source p) = Some s \/
+  (exists rs, w_dbs w p = Some rs /\ is_modified s rs = false) \/
+  (exists c, classify (w_src w p) (w_dst w p) (w_dbs w p) (w_dbd w p) = Some c /\ is_conflict c = true /\ st <> RenameBoth) \/
+  (w_dbs w p = None /\ (exists rd, w_dbd w p = Some rd) /\ w_dst w p = None).
+Proof.
+  intros Hr Hs w'. subst w'. unfold path_sync, sync_step.
+  destruct (action_of st w p) as [a|] eqn:Ea.
+  - unfold action_of in Ea. destruct (classify (w_src w p) (w_dst w p) (w_dbs w p) (w_dbd w p)) as [c|] eqn:Ec; [|discriminate].
+    destruct a.
+    + (* CopyToSource: replaced *)
+      destruct (is_conflict c) eqn:Hc.
+      * right. right. right. left. exists c. split; [reflexivity|]. split; [exact Hc|]. intro; subst.
+        destruct c; try discriminate; cbn in Ea; rewrite Hs in Ea; destruct (w_dst w p); inversion Ea.
+      * right. right. left. unfold rows_ok in Hr. rewrite Hs in Ec.
+        destruct (w_dst w p) as [d|], (w_dbs w p) as [rs|], (w_dbd w p) as [rd|]; try contradiction; cbn in Ec;
+          repeat match type of Ec with context [if ?x then _ else _] => destruct x eqn:? end; inversion Ec; subst; try discriminate;
+          cbn in Ea; rewrite ?Hs in Ea; try discriminate; try (exists rs; split; [reflexivity | assumption]);
+          try (exists rs; split; [reflexivity|];
+               match goal with Hx : (is_modified s rs && negb false)%bool = false |- _ => cbn [negb] in Hx; rewrite andb_true_r in Hx; exact Hx end).
+    + (* CopyToDest: the source side is not written *)
+      left. destruct (record_path_files (exec now w p CopyToDest) p p) as [A _]. rewrite A. cbn. rewrite Hs. cbn. exact Hs.
+    + (* DeleteFromSource *)
+      destruct (is_conflict c) eqn:Hc.
+      * right. right. right. left. exists c. split; [reflexivity|]. split; [exact Hc|]. intro; subst.
+        destruct c; try discriminate; cbn in Ea; rewrite Hs in Ea; destruct (w_dst w p); inversion Ea.
+      * unfold rows_ok in Hr. rewrite Hs in Ec.
+        destruct (w_dst w p) as [d|], (w_dbs w p) as [rs|], (w_dbd w p) as [rd|]; try contradiction; cbn in Ec;
+          repeat match type of Ec with context [if ?x then _ else _] => destruct x eqn:? end; inversion Ec; subst; try discriminate;
+          cbn in Ea; rewrite ?Hs in Ea; try discriminate;
+          first [ right; right; left; exists rs; split; [reflexivity | assumption]
+                | right; right; right; right; split; [reflexivity | split; [eexists; reflexivity | reflexivity]] ].
+    + left. destruct (record_path_files (exec now w p DeleteFromDest) p p) as [A _]. rewrite A. cbn. exact Hs.
+    + (* RenameConflict: kept under the conflict name *)
+      right. left. pose proof (action_of_ok st w p RenameConflict) as Hok. unfold action_of in Hok. rewrite Ec in Hok. specialize (Hok Ea).
+      destruct Hok as [_ Hd]. destruct (w_dst w p) as [d|] eqn:Ed; [|congruence].
+      destruct (record_path_files (exec now w p RenameConflict) p (cname Source p)) as [A _]. rewrite A. cbn. rewrite Hs, Ed. cbn. apply upd_same.
+  - left. destruct (record_path_files w p p) as [A _]. rewrite A. exact Hs.
+Qed.
+
+(* the same for the destination's version *)
+Theorem dest_version_accounted st now w p d :
+  rows_ok w p -> w_dst w p = Some d ->
+  let w' := path_sync st now w p in
+  w_dst w' p = Some d \/ w_dst w' (cname Dest p) = Some d \/
+  (exists rd, w_dbd w p = Some rd /\ is_modified d rd = false) \/
+  (exists c, classify (w_src w p) (w_dst w p) (w_dbs w p) (w_dbd w p) = Some c /\ is_conflict c = true /\ st <> RenameBoth) \/
+  (w_dbd w p = None /\ (exists rs, w_dbs w p = Some rs) /\ w_src w p = None).
+Proof.
+  intros Hr Hd w'. subst w'. unfold path_sync, sync_step.
+  destruct (action_of st w p) as [a|] eqn:Ea.
+  - unfold action_of in Ea. destruct (classify (w_src w p) (w_dst w p) (w_dbs w p) (w_dbd w p)) as [c|] eqn:Ec; [|discriminate].
+    destruct a.
+    + left. destruct (record_path_files (exec now w p CopyToSource) p p) as [_ B]. rewrite B. cbn. rewrite Hd. cbn. exact Hd.
+    + (* CopyToDest: replaced *)
+      destruct (is_conflict c) eqn:Hc.
+      * right. right. right. left. exists c. split; [reflexivity|]. split; [exact Hc|]. intro; subst.
+        destruct c; try discriminate; cbn in Ea; rewrite Hd in Ea; destruct (w_src w p); inversion Ea.
+      * unfold rows_ok in Hr. rewrite Hd in Ec.
+        destruct (w_src w p) as [s|], (w_dbs w p) as [rs|], (w_dbd w p) as [rd|]; try contradiction; cbn in Ec;
+          repeat match type of Ec with context [if ?x then _ else _] => destruct x eqn:? end; inversion Ec; subst; try discriminate;
+          cbn in Ea; rewrite ?Hd in Ea; try discriminate;
+          first [ right; right; left; exists rd; split; [reflexivity | assumption]
+                | right; right; left; exists rd; split; [reflexivity|];
+                  match goal with Hx : (is_modified d rd && negb false)%bool = false |- _ => cbn [negb] in Hx; rewrite andb_true_r in Hx; exact Hx end ].
+    + left. destruct (record_path_files (exec now w p DeleteFromSource) p p) as [_ B]. rewrite B. cbn. exact Hd.
+    + (* DeleteFromDest *)
+      destruct (is_conflict c) eqn:Hc.
+      * right. right. right. left. exists c. split; [reflexivity|]. split; [exact Hc|]. intro; subst.
+        destruct c; try discriminate; cbn in Ea; rewrite Hd in Ea; destruct (w_src w p); inversion Ea.
+      * unfold rows_ok in Hr. rewrite Hd in Ec.
+        destruct (w_src w p) as [s|], (w_dbs w p) as [rs|], (w_dbd w p) as [rd|]; try contradiction; cbn in Ec;
+          repeat match type of Ec with context [if ?x then _ else _] => destruct x eqn:? end; inversion Ec; subst; try discriminate;
+          cbn in Ea; rewrite ?Hd in Ea; try discriminate;
+          first [ right; right; left; exists rd; split; [reflexivity | assumption]
+                | right; right; right; right; split; [reflexivity | split; [eexists; reflexivity | reflexivity]] ].
+    + (* RenameConflict: kept under the conflict name *)
+      right. left. pose proof (action_of_ok st w p RenameConflict) as Hok. unfold action_of in Hok. rewrite Ec in Hok. specialize (Hok Ea).
+      destruct Hok as [Hs _]. destruct (w_src w p) as [s|] eqn:Es; [|congruence].
+      destruct (record_path_files (exec now w p RenameConflict) p (cname Dest p)) as [_ B]. rewrite B. cbn. rewrite Es, Hd. cbn. apply upd_same.
+  - left. destruct (record_path_files w p p) as [_ B]. rewrite B. exact Hd.
+Qed.
+
+(* ---------- histories: the invariant that makes the database truthful ---------- *)
+Definition times_ok (t : Z) (w : world) (p : N) : Prop :=
+  (forall f, w_src w p = Some f -> (f_mtime f <= t)%Z) /\ (forall f, w_dst w p = Some f -> (f_mtime f <= t)%Z) /\
+  (forall r, w_dbs w p = Some r -> (s_mtime r <= t)%Z) /\ (forall r, w_dbd w p = Some r -> (s_mtime r <= t)%Z).
+
+Definition good (t : Z) (w : world) (p : N) : Prop := rows_ok w p /\ times_ok t w p.
+
+Lemma rows_ok_at w1 w2 p : at_ w1 p = at_ w2 p -> rows_ok w1 p -> rows_ok w2 p.
+Proof. unfold at_, rows_ok. intro E. inversion E as [[E1 E2 E3 E4]]. rewrite E1, E2, E3, E4. exact (fun H => H). Qed.
+Lemma rows_fresh_at w1 w2 p : at_ w1 p = at_ w2 p -> rows_fresh w1 p -> rows_fresh w2 p.
+Proof. unfold at_, rows_fresh. intro E. inversion E as [[E1 E2 E3 E4]]. rewrite E1, E2, E3, E4. exact (fun H => H). Qed.
+Lemma in_sync_at w1 w2 p : at_ w1 p = at_ w2 p -> in_sync w1 p -> in_sync w2 p.
+Proof. unfold at_, in_sync. intro E. inversion E as [[E1 E2 E3 E4]]. rewrite E1, E2. exact (fun H => H). Qed.
+Lemma times_ok_at t w1 w2 p : at_ w1 p = at_ w2 p -> times_ok t w1 p -> times_ok t w2 p.
+Proof. unfold at_, times_ok. intro E. inversion E as [[E1 E2 E3 E4]]. rewrite E1, E2, E3, E4. exact (fun H => H). Qed.
+Lemma times_ok_mono t t' w p : (t <= t')%Z -> times_ok t w p -> times_ok t' w p.
+Proof. intros Hl (A & B & C & D). repeat split; intros x Hx; [specialize (A x Hx)|specialize (B x Hx)|specialize (C x Hx)|specialize (D x Hx)]; lia. Qed.
+
+(* an edit at a time later than everything recorded keeps the rows truthful: the edited side is seen as modified *)
+Lemma edit_keeps_good t w sd p e q :
+  good t w q ->
+  good (t + 1) (match sd with
+                | Source => mk_world (apply_edit (t + 1) (w_src w) p e) (w_dst w) (w_dbs w) (w_dbd w)
+                | Dest => mk_world (w_src w) (apply_edit (t + 1) (w_dst w) p e) (w_dbs w) (w_dbd w)
+                end) q.
+Proof.
+  intros [Hr Ht]. destruct (N.eq_dec q p) as [->|Hne].
+  - destruct Ht as (T1 & T2 & T3 & T4). split.
+    + unfold rows_ok in *. destruct sd; cbn [w_src w_dst w_dbs w_dbd];
+        destruct (w_dbs w p) as [rs|] eqn:Es, (w_dbd w p) as [rd|] eqn:Ed; try contradiction; try exact I;
+        destruct Hr as (bc & bs & Hs & Hd); exists bc, bs; split; try assumption.
+      * intros s Hs' Hm. exfalso. destruct e; cbn [apply_edit] in Hs'.
+        -- rewrite upd_same in Hs'. inversion Hs'; subst. unfold is_modified in Hm. cbn in Hm. apply orb_false_elim in Hm. destruct Hm as [_ Hm].
+           apply Z.ltb_ge in Hm. specialize (T3 rs eq_refl). lia.
+        -- rewrite upd_same in Hs'. discriminate.
+        -- destruct (w_src w p) as [f|] eqn:Ef; [|congruence]. rewrite upd_same in Hs'. inversion Hs'; subst. unfold is_modified in Hm. cbn in Hm.
+           apply orb_false_elim in Hm. destruct Hm as [_ Hm]. apply Z.ltb_ge in Hm. specialize (T3 rs eq_refl). lia.
+      * intros d Hd' Hm. exfalso. destruct e; cbn [apply_edit] in Hd'.
+        -- rewrite upd_same in Hd'. inversion Hd'; subst. unfold is_modified in Hm. cbn in Hm. apply orb_false_elim in Hm. destruct Hm as [_ Hm].
+           apply Z.ltb_ge in Hm. specialize (T4 rd eq_refl). lia.
+        -- rewrite upd_same in Hd'. discriminate.
+        -- destruct (w_dst w p) as [f|] eqn:Ef; [|congruence]. rewrite upd_same in Hd'. inversion Hd'; subst. unfold is_modified in Hm. cbn in Hm.
+           apply orb_false_elim in Hm. destruct Hm as [_ Hm]. apply Z.ltb_ge in Hm. specialize (T4 rd eq_refl). lia.
+    + destruct sd; cbn [w_src w_dst w_dbs w_dbd]; repeat split; intros x Hx; cbn [w_src w_dst w_dbs w_dbd] in Hx;
+        try (specialize (T1 x Hx); lia); try (specialize (T2 x Hx); lia); try (specialize (T3 x Hx); lia); try (specialize (T4 x Hx); lia).
+      * destruct e; cbn [apply_edit] in Hx; [rewrite upd_same in Hx; inversion Hx; subst; cbn; lia | rewrite upd_same in Hx; discriminate|].
+        destruct (w_src w p) as [f|] eqn:Ef; [rewrite upd_same in Hx; inversion Hx; subst; cbn; lia | rewrite Ef in Hx; discriminate].
+      * destruct e; cbn [apply_edit] in Hx; [rewrite upd_same in Hx; inversion Hx; subst; cbn; lia | rewrite upd_same in Hx; discriminate|].
+        destruct (w_dst w p) as [f|] eqn:Ef; [rewrite upd_same in Hx; inversion Hx; subst; cbn; lia | rewrite Ef in Hx; discriminate].
+  - (* another path: nothing changes there *)
+    assert (E : forall m : fmap fent, apply_edit (t + 1) m p e q = m q).
+    { intro m. destruct e; cbn [apply_edit]; [apply upd_other; exact Hne | apply upd_other; exact Hne|]. destruct (m p); [apply upd_other; exact Hne | reflexivity]. }
+    split.
+    + unfold rows_ok in *. destruct sd; cbn [w_src w_dst w_dbs w_dbd]; rewrite ?E; exact Hr.
+    + apply (times_ok_mono t); [lia|]. unfold times_ok in *. destruct sd; cbn [w_src w_dst w_dbs w_dbd]; rewrite ?E; exact Ht.
+Qed.
+
+Lemma path_sync_times t st w p : times_ok t w p -> times_ok (t + 1) (path_sync st (t + 1) w p) p.
+Proof.
+  intros (T1 & T2 & T3 & T4). unfold path_sync, sync_step.
+  assert (Hfiles : forall x, (forall f, w_src x p = Some f -> (f_mtime f <= t + 1)%Z) -> (forall f, w_dst x p = Some f -> (f_mtime f <= t + 1)%Z) ->
+                   (forall r, w_dbs x p = Some r -> (s_mtime r <= t + 1)%Z) -> (forall r, w_dbd x p = Some r -> (s_mtime r <= t + 1)%Z) ->
+                   times_ok (t + 1) (record_path x p) p).
+  { intros x A B C D. unfold times_ok, record_path. destruct (w_src x p) as [s|] eqn:Es, (w_dst x p) as [d|] eqn:Ed; cbn.
+    - destruct (content_equal s d); cbn; rewrite ?Es, ?Ed, ?upd_same; repeat split; intros y Hy; try (inversion Hy; subst; cbn); auto.
+    - rewrite Es, Ed. repeat split; intros y Hy; auto; discriminate.
+    - rewrite Es, Ed. repeat split; intros y Hy; auto; discriminate.
+    - rewrite Es, Ed, !upd_same. repeat split; intros y Hy; discriminate. }
+  destruct (action_of st w p) as [a|].
+  - destruct (exec_db (t + 1) w p a) as [D1 D2].
+    apply Hfiles; [| |rewrite D1; intros y Hy; specialize (T3 y Hy); lia|rewrite D2; intros y Hy; specialize (T4 y Hy); lia];
+      destruct a; cbn [exec]; destruct (w_src w p) as [s|] eqn:Es; destruct (w_dst w p) as [d|] eqn:Ed; cbn [w_src w_dst];
+      intros y Hy; rewrite ?upd_same in Hy; try (rewrite upd_other in Hy by (intro X; symmetry in X; revert X; apply cname_ne); rewrite ?upd_same in Hy); rewrite ?Es, ?Ed in Hy;
+      try discriminate; inversion Hy; subst; cbn; try lia;
+      try (specialize (T1 _ eq_refl); lia); try (specialize (T2 _ eq_refl); lia).
+  - apply Hfiles; intros y Hy; [specialize (T1 y Hy)|specialize (T2 y Hy)|specialize (T3 y Hy)|specialize (T4 y Hy)]; lia.
+Qed.
+
+(* one successful sync keeps every path of the universe good and leaves it in sync with fresh rows *)
+Theorem bisync_keeps_good U st maxdel t w w' p :
+  NoDup U -> conflict_names_outside U -> In p U -> good t w p -> bisync U st maxdel (t + 1) w = Some w' ->
+  good (t + 1) w' p /\ rows_fresh w' p /\ in_sync w' p.
+Proof.
+  intros Hnd Hc Hp [Hr Ht] Hb. pose proof (bisync_at U st maxdel (t + 1) w w' p Hnd Hc Hp Hb) as E. symmetry in E.
+  destruct (path_sync_fresh st (t + 1) w p Hr) as [Hf Hs].
+  assert (Hf' : rows_fresh w' p) by (apply (rows_fresh_at _ _ _ E Hf)).
+  assert (Hs' : in_sync w' p) by (apply (in_sync_at _ _ _ E Hs)).
+  split; [|split; assumption]. split; [apply fresh_rows_ok; assumption|].
+  apply (times_ok_at _ _ _ _ E). apply path_sync_times. exact Ht.
+Qed.
+
+(* a refused sync (deletion limit) changes nothing *)
+Lemma good_mono t w p : good t w p -> good (t + 1) w p.
+Proof. intros [A B]. split; [exact A | apply (times_ok_mono t); [lia | exact B]]. Qed.
+
+Theorem history_good U : NoDup U -> conflict_names_outside U -> forall h p, In p U ->
+  good (fst (run_history U h)) (snd (run_history U h)) p.
+Proof.
+  intros Hnd Hc h. unfold run_history.
+  assert (G : forall h t w, (forall p, In p U -> good t w p) -> forall p, In p U -> good (fst (fold_left (run_step U) h (t, w))) (snd (fold_left (run_step U) h (t, w))) p).
+  { induction h0 as [|s h0 IH]; intros t w Hg p Hp; [apply Hg; exact Hp|].
+    cbn [fold_left]. destruct s as [sd q e|st m]; cbn [run_step].
+    - destruct sd; apply IH; try exact Hp; intros r Hr.
+      + apply (edit_keeps_good t w Source q e r). apply Hg. exact Hr.
+      + apply (edit_keeps_good t w Dest q e r). apply Hg. exact Hr.
+    - destruct (bisync U st m (t + 1) w) as [w'|] eqn:Eb; apply IH; try exact Hp; intros r Hr.
+      + apply (bisync_keeps_good U st m t w w' r Hnd Hc Hr (Hg r Hr) Eb).
+      + apply good_mono. apply Hg. exact Hr. }
+  intros p Hp. apply G; [|exact Hp]. intros q _. split; [exact I|]. repeat split; intros x Hx; discriminate.
+Qed.
+
+(* ---------- histories in which the database loses rows ---------- *)
+Lemma run_step_good U : NoDup U -> conflict_names_outside U -> forall t w s,
+  (forall p, In p U -> good t w p) -> forall p, In p U -> good (fst (run_step U (t, w) s)) (snd (run_step U (t, w) s)) p.
+Proof.
+  intros Hnd Hc t w s Hg p Hp. destruct s as [sd q e|st m]; cbn [run_step].
+  - destruct sd; cbn [fst snd].
+    + apply (edit_keeps_good t w Source q e p). apply Hg. exact Hp.
+    + apply (edit_keeps_good t w Dest q e p). apply Hg. exact Hp.
+  - destruct (bisync U st m (t + 1) w) as [w'|] eqn:Eb; cbn [fst snd].
+    + apply (bisync_keeps_good U st m t w w' p Hnd Hc Hp (Hg p Hp) Eb).
+    + apply good_mono. apply Hg. exact Hp.
+Qed.
+
+(* ---------- ordinary histories never leave a row for one side only ---------- *)
+Definition paired (w : world) (p : N) : Prop := w_dbs w p = None <-> w_dbd w p = None.
+
+Lemma fresh_paired w p : rows_fresh w p -> paired w p.
+Proof.
+  unfold rows_fresh, paired. destruct (w_src w p), (w_dst w p); try contradiction; intros [A B]; rewrite A, B; split; intro H; try discriminate; reflexivity.
+Qed.
+
+Theorem history_paired U : NoDup U -> conflict_names_outside U -> forall h p, In p U -> paired (snd (run_history U h)) p.
+Proof.
+  intros Hnd Hc h. unfold run_history.
+  assert (G : forall h t w, (forall p, In p U -> good t w p /\ paired w p) ->
+              forall p, In p U -> good (fst (fold_left (run_step U) h (t, w))) (snd (fold_left (run_step U) h (t, w))) p /\
+                                  paired (snd (fold_left (run_step U) h (t, w))) p).
+  { induction h0 as [|s h0 IH]; intros t w Hg p Hp; [apply Hg; exact Hp|].
+    cbn [fold_left]. rewrite (surjective_pairing (run_step U (t, w) s)). apply IH; [|exact Hp]. intros r Hr. split.
+    - apply run_step_good; try assumption. intros q Hq. apply Hg. exact Hq.
+    - destruct s as [sd q e|st m]; cbn [run_step].
+      + destruct sd; cbn [snd]; unfold paired; cbn [w_dbs w_dbd]; apply Hg; exact Hr.
+      + destruct (bisync U st m (t + 1) w) as [w'|] eqn:Eb; cbn [snd].
+        * apply fresh_paired. destruct (Hg r Hr) as [Hgood _].
+          destruct (bisync_keeps_good U st m t w w' r Hnd Hc Hr Hgood Eb) as (_ & Hf & _). exact Hf.
+        * apply Hg. exact Hr. }
+  intros p Hp. apply G; [|exact Hp]. intros q _. split; [split; [exact I|]|].
+  - repeat split; intros x Hx; discriminate.
+  - unfold paired. cbn. split; reflexivity.
+Qed.
+
+Lemma drop_row_keeps_good t w sd q p : good t w p -> good (t + 1) (drop_row sd q w) p.
+Proof.
+  intros [Hr (T1 & T2 & T3 & T4)]. split.
+  - unfold rows_ok in *. destruct sd; cbn [drop_row w_src w_dst w_dbs w_dbd]; unfold upd; destruct (N.eqb p q);
+      try exact Hr; destruct (w_dbs w p), (w_dbd w p); exact I.
+  - unfold times_ok. destruct sd; cbn [drop_row w_src w_dst w_dbs w_dbd]; unfold upd; repeat split; intros x Hx;
+      try (destruct (N.eqb p q); [discriminate|]);
+      first [specialize (T1 x Hx) | specialize (T2 x Hx) | specialize (T3 x Hx) | specialize (T4 x Hx)]; lia.
+Qed.
+
+Definition no_backdated_write (x : xstep) : Prop := match x with XWriteAt _ _ _ _ _ => False | _ => True end.
+
+Theorem xhistory_good U : NoDup U -> conflict_names_outside U -> forall h, (forall x, In x h -> no_backdated_write x) ->
+  forall p, In p U -> good (fst (run_xhistory U h)) (snd (run_xhistory U h)) p.
+Proof.
+  intros Hnd Hc h. unfold run_xhistory.
+  assert (G : forall h t w, (forall x, In x h -> no_backdated_write x) -> (forall p, In p U -> good t w p) ->
+              forall p, In p U -> good (fst (fold_left (run_xstep U) h (t, w))) (snd (fold_left (run_xstep U) h (t, w))) p).
+  { induction h0 as [|x h0 IH]; intros t w Hn Hg p Hp; [apply Hg; exact Hp|].
+    cbn [fold_left].
+    assert (Hn' : forall y, In y h0 -> no_backdated_write y) by (intros y Hy; apply Hn; right; exact Hy).
+    destruct x as [s|sd q|sd q sz c mt].
+    - cbn [run_xstep]. rewrite (surjective_pairing (run_step U (t, w) s)). apply IH; [exact Hn'| |exact Hp].
+      intros r Hr. apply run_step_good; assumption.
+    - cbn [run_xstep fst snd]. apply IH; [exact Hn'| |exact Hp]. intros r Hr. apply drop_row_keeps_good. apply Hg. exact Hr.
+    - exfalso. apply (Hn (XWriteAt sd q sz c mt)). left. reflexivity. }
+  intros Hn p Hp. apply G; [exact Hn| |exact Hp]. intros q _. split; [exact I|]. repeat split; intros x Hx; discriminate.
+Qed.
+
+(* a first sync of two arbitrary trees (no rows at p): every combination of sizes, contents and time stamps is a good state *)
+Lemma rowless_good t w p : w_dbs w p = None -> w_dbd w p = None ->
+  (forall f, w_src w p = Some f -> (f_mtime f <= t)%Z) -> (forall f, w_dst w p = Some f -> (f_mtime f <= t)%Z) -> good t w p.
+Proof.
+  intros A B C D. split; [unfold rows_ok; rewrite A, B; exact I|]. unfold times_ok. rewrite A, B. repeat split; try assumption; intros r Hr; discriminate.
+Qed.
+
+(* ---------- after a sync, an edit on one side, then any sync: the edit wins, whatever the strategy ---------- *)
+Theorem edit_after_sync_propagates U st1 m1 st2 m2 t w w1 w3 p e :
+  NoDup U -> conflict_names_outside U -> In p U -> good t w p ->
+  bisync U st1 m1 (t + 1) w = Some w1 ->
+  let w2 := mk_world (apply_edit (t + 2) (w_src w1) p e) (w_dst w1) (w_dbs w1) (w_dbd w1) in
+  (w_src w1 p = None -> e <> Touch /\ e <> Delete) ->
+  bisync U st2 m2 (t + 3) w2 = Some w3 ->
+  w_src w3 p = w_src w2 p /\ same_content (w_dst w3 p) (w_src w2 p) = true.
+Proof.
+  intros Hnd Hc Hp Hg Hb1 w2 Hne Hb3.
+  destruct (bisync_keeps_good U st1 m1 t w w1 p Hnd Hc Hp Hg Hb1) as ([_ Ht1] & Hf & Hs).
+  pose proof (bisync_at U st2 m2 (t + 3) w2 w3 p Hnd Hc Hp Hb3) as E. unfold at_ in E. inversion E as [[E1 E2 E3 E4]]. rewrite E1, E2.
+  destruct Ht1 as (T1 & T2 & T3 & T4).
+  unfold rows_fresh in Hf. destruct (w_src w1 p) as [s|] eqn:Es, (w_dst w1 p) as [d|] eqn:Ed; try contradiction; destruct Hf as [Fs Fd].
+  - (* present on both sides with fresh rows: the edit makes the source differ from its row *)
+    apply source_change_propagates. exists (rec_of s), (rec_of d), d. subst w2. cbn [w_src w_dst w_dbs w_dbd]. rewrite Fs, Fd, Ed.
+    split; [reflexivity|]. split; [reflexivity|]. split; [reflexivity|]. split; [apply is_modified_rec_of|].
+    destruct e; cbn [apply_edit]; rewrite ?Es, ?upd_same; try exact I; unfold is_modified, rec_of; cbn;
+      [assert (Hlt : (f_mtime s <? t + 2)%Z = true) by (apply Z.ltb_lt; specialize (T1 s eq_refl); lia); rewrite Hlt; apply orb_true_r|
+       assert (Hlt : (f_mtime s <? t + 2)%Z = true) by (apply Z.ltb_lt; specialize (T1 s eq_refl); lia); rewrite Hlt; apply orb_true_r].
+  - (* absent on both sides: the edit creates the file *)
+    destruct (Hne eq_refl) as [N1 N2]. destruct e as [sz c| |]; try congruence. subst w2. cbn [w_src w_dst w_dbs w_dbd apply_edit]. rewrite upd_same.
+    apply new_file_propagates; cbn [w_src w_dst w_dbs w_dbd]; try assumption. apply upd_same.
 Qed.
